@@ -6,9 +6,15 @@ import MlsVerif.Model.Resumption
 namespace Driver.Small
 open MlsVerif
 
-def parseOp (s : String) : Option Pending.Op :=
+/-- `none` inside = `x<m>:<k>`: member m receives commit k with a wrong confirmation tag (re-signed by its author): a
+rejected message, which by C04 leaves every member as it was -/
+def parseOp (s : String) : Option (Option Pending.Op) :=
   let body := (s.drop 1).toString
   match s.front, body.splitOn ":" with
+  | 'x', [m, k] => do let _ ← m.toNat?; let _ ← k.toNat?; pure none
+  | c, parts => (parseOp' c parts).map some
+where parseOp' (c : Char) (parts : List String) : Option Pending.Op :=
+  match c, parts with
   | 'b', [m] => m.toNat?.map fun m => .build m false
   | 'B', [m] => m.toNat?.map fun m => .build m true
   | 'c', [m] => m.toNat?.map .clear
@@ -19,11 +25,13 @@ def parseOp (s : String) : Option Pending.Op :=
 
 /-- one observation per op: result, then per member `e<epoch>s<class>p<pending>`; state classes are
 numbered by first appearance along the run, the initial state being class 0 -/
-def runObs (n : Nat) (ops : List Pending.Op) : String :=
-  let rec go (w : Pending.World) (classes : List Nat) : List Pending.Op → List String
+def runObs (n : Nat) (ops : List (Option Pending.Op)) : String :=
+  let rec go (w : Pending.World) (classes : List Nat) : List (Option Pending.Op) → List String
     | [] => []
     | op :: rest =>
-      let (w', r) := Pending.step w op
+      let (w', r) : Pending.World × Pending.Res := match op with
+        | some op => Pending.step w op
+        | none => (w, .invalidEpoch)   -- any error: only ok / err is printed
       let (classes', cells) := w'.members.foldl (fun (acc : List Nat × List String) x =>
         let (cl, out) := acc
         let (cl, c) := match cl.findIdx? (· == x.cur) with
